@@ -52,7 +52,7 @@ def differing(table):
     fam, _, gen = TABLE_OF[table]
     imp = "From Verif Require Import C06.Abi C06.Sexp C06.TplEncL C06.TplEncV C06.TplEncX C06.GenTplEncXL C06.GenTplEncXV.\n"
     o = coqrun.eval_zlists(imp, [f"map (fun p => if sx_eqb ({gen} (fst p)) (snd p) then 1 else 0) {table}"], "tplx" + table, shard=1)[0]
-    return [A.eth_ty(t) for t, ok in zip(fam(), o) if not ok]
+    return [A.coq_ty(t) for t, ok in zip(fam(), o) if not ok]
 
 
 def run_templates(ctx, report):
